@@ -185,7 +185,7 @@ func c16Units(t Tier, seed uint64) []engine.Unit {
 	if t.F > 1 {
 		reps = 12
 	}
-	steps := 400
+	steps := 1600
 	for rep := 0; rep < reps; rep++ {
 		for ci, c := range combos {
 			c := c
